@@ -84,8 +84,10 @@ fn export_plugin(v: &(Vec<AF>, Vec<FMsg>), rep: &mut Rep) -> Result<(), String> 
     let mut p = ExportPlugin::from_json(cfg.as_object().unwrap()).map_err(|e| format!("export plugin config refused: {}", e))?;
     for m in built.iter() {
         let mut m2 = m.clone();
-        ensure!(p.process_msg(&mut m2), "export plugin dropped a message from the stream");
-        ensure!(m2 == *m, "export plugin altered message {}", m.index);
+        // (whether the plugin also forwards what it exports is not C12's matter: C19 allows it to drop)
+        if p.process_msg(&mut m2) {
+            ensure!(m2 == *m, "export plugin altered message {}", m.index);
+        }
     }
     p.sync_all();
     drop(p);
